@@ -115,6 +115,9 @@ type EstimateInfo struct {
 	FloatInt bool   // field is float, reported as int(field)
 	Delegate *FieldRef // wrapper: EstimatedLimit returns delegate.EstimatedLimit()
 	Fn       *ssa.Function
+	// Published: EstimatedLimit serves an atomically published copy (this field) of Field; every store of the copy is a
+	// conversion of the value stored into Field by the same function
+	Published *FieldRef
 }
 
 // EstimateOf analyses T.EstimatedLimit.
@@ -156,6 +159,13 @@ func (p *Prog) EstimateOf(nt *types.Named) (*EstimateInfo, string) {
 			if atomicOpOf(c.Name) == "Load" && len(c.Args) == 1 {
 				if fa, ok := c.Args[0].(*ssa.FieldAddr); ok {
 					fr, _, _ := fieldOf(fa)
+					if src, ok := p.publishedCopyOf(nt, fr); ok {
+						pub := fr
+						info.Published = &pub
+						info.Field = src
+						info.FloatInt = isFloat(nt.Underlying().(*types.Struct).Field(src.Index).Type())
+						continue
+					}
 					info.Field = fr
 					info.Atomic = true
 					continue
@@ -299,4 +309,72 @@ func (p *Prog) allocSitesOf(nt *types.Named) []*ssa.Function {
 		}
 	}
 	return out
+}
+
+// publishedCopyOf: the atomically accessed field pub of nt is a published copy of another field of nt: every write of
+// pub outside constructors-by-literal is an atomic store of (a conversion of) a value that the same function also
+// stores, plainly, into one and the same other field src of the same object. Returns src.
+func (p *Prog) publishedCopyOf(nt *types.Named, pub FieldRef) (FieldRef, bool) {
+	var src FieldRef
+	n := 0
+	ok := true
+	unconv := func(v ssa.Value) ssa.Value {
+		for i := 0; i < 4; i++ {
+			v = strip(v, true)
+			if cv, isC := v.(*ssa.Convert); isC {
+				v = cv.X
+				continue
+			}
+			break
+		}
+		return strip(v, true)
+	}
+	for _, f := range p.Funcs {
+		if !p.InModule(f) {
+			continue
+		}
+		for _, a := range p.Accesses(f) {
+			if !a.Write || !sameField(a.Field, pub) {
+				continue
+			}
+			if !a.Atomic || a.AtomicOp != "Store" || a.Val == nil {
+				return FieldRef{}, false
+			}
+			n++
+			val := unconv(a.Val)
+			found := false
+			for _, b := range p.Accesses(f) {
+				if !b.Write || b.Atomic || b.Pointee || sameField(b.Field, pub) || b.Field.Type == nil || !types.Identical(b.Field.Type, nt) || b.Val == nil {
+					continue
+				}
+				if AccessPath(b.Base).String() != AccessPath(a.Base).String() {
+					continue
+				}
+				if unconv(b.Val) == val {
+					if src.Valid() && !sameField(src, b.Field) {
+						ok = false
+					}
+					src = b.Field
+					found = true
+				}
+			}
+			// or the published value is a conversion of a load of src itself
+			if !found {
+				if fr, base, isL := loadedField(val); isL && fr.Type != nil && types.Identical(fr.Type, nt) && !sameField(fr, pub) && AccessPath(base).String() == AccessPath(a.Base).String() {
+					if src.Valid() && !sameField(src, fr) {
+						ok = false
+					}
+					src = fr
+					found = true
+				}
+			}
+			if !found {
+				ok = false
+			}
+		}
+	}
+	if !ok || n == 0 || !src.Valid() {
+		return FieldRef{}, false
+	}
+	return src, true
 }
